@@ -111,6 +111,10 @@ pub fn op_u_poll<F: FutFl>(slot: usize, ux: usize, task: usize) {
 //   KIND 10: a stream task is parked on the empty, lapped queue; the last TWO sender handles are dropped
 //           "at the same time": the drop of tx1 runs at the k-th shared-memory operation of the drop
 //           of tx0, for every k (forced-site mode, DESIGN.md 4); the task must have been notified
+//   KIND 11: a stream task is parked on the empty, lapped queue; the LAST sender handle is dropped (outer) and
+//           at the k-th shared-memory operation of that drop, for every k (forced-site mode), the executor
+//           re-polls the task if it has been notified by then (a prompt executor); the task's last poll must
+//           have reported the end, or the task must have been notified after it
 //   actor 0 = the task that may park (outer), actor 1 (2) = the other side
 
 pub struct Park<F, const KIND: u8>(PhantomData<F>);
@@ -124,6 +128,13 @@ impl<F: FutFl, const KIND: u8> Prog for Park<F, KIND> {
         match (KIND, a) {
             (10, 0) => op_drop_tx::<F>(0, 0),
             (10, _) => op_drop_tx::<F>(4, 1),
+            (11, 0) => op_drop_tx::<F>(0, 0),
+            (11, _) => {
+                // the executor polls the parked task again as soon as (and only if) it was notified
+                if woken_since_last_call(TASK_RX) {
+                    op_poll::<F>(4, 0, TASK_RX)
+                }
+            }
             (8, 0) => op_drop_rx::<F>(0, 1),
             (8, _) => {
                 // the executor polls a task again only after it was notified
@@ -294,6 +305,57 @@ pub fn parked_two_sender_drops<F: FutFl>(cap: u64, n: u8, sites: u16) {
         k += 1;
     }
     kani::cover!(beyond, "the forced site lies past the end of the outer operation (every site was enumerated)");
+}
+
+/// KIND 11 (see above).
+pub fn parked_sender_drop_repoll<F: FutFl>(cap: u64, n: u8, sites: u16) {
+    let mut k: u16 = 1;
+    let mut beyond = false;
+    let mut repolled_inside = false;
+    while k <= sites {
+        ledger::reset();
+        payload::reset();
+        sched::configure(1, 1, sched::MEM_KINDS, 1);
+        sched::force(k, 1, [1; 4]);
+        let mut w = World::<F>::new(cap);
+        set_world::<F>(&mut *w);
+        unsafe { CALL_START = [0; 4] };
+        // lap the ring, then the stream task polls the empty queue and parks
+        let mut i = 0;
+        while i < n {
+            let ss = PRE_SEND_SLOT0 + i as usize;
+            let rs = crate::finish::PRE_RECV_SLOT0 + i as usize;
+            ledger::declare_send(ss, 8, 5 + i);
+            ledger::declare_recv(rs, 8, 0);
+            op_send::<F>(ss, 0, 5 + i);
+            op_recv::<F>(rs, 0);
+            i += 1;
+        }
+        ledger::declare_recv(8, 2, 0);
+        op_poll::<F>(8, 0, TASK_RX);
+        assert!(lg().recs[8].res == R_NOTREADY, "C15: poll on an empty queue with live senders did not return NotReady");
+        ledger::declare_other(0, 0);
+        ledger::declare_recv(4, 1, 0);
+        run_concurrent::<Park<F, 11>, 0>();
+        if sched::st().site_no < k {
+            beyond = true;
+        }
+        let last = lg().recs[4].res;
+        if sched::st().injected > 0 && last != R_NONE && sched::st().site_no >= k {
+            repolled_inside = true;
+        }
+        assert!(last == R_NONE || last == R_NOTREADY || last == R_DISC, "C07: a poll after the last sender left returned a value that was never sent");
+        if last != R_DISC {
+            assert!(
+                woken_since_last_call(TASK_RX),
+                "C14: a stream task stays parked although the last sender went away: the notification came before the queue could report the end, and none followed"
+            );
+        }
+        let _ = &w; // ManuallyDrop: never dropped
+        k += 1;
+    }
+    kani::cover!(beyond, "the forced site lies past the end of the outer operation (every site was enumerated)");
+    kani::cover!(repolled_inside, "the task was polled again inside the drop of the last sender");
 }
 
 /// KIND 8 (see above).  N = 1.
@@ -571,6 +633,8 @@ park!(c14s_mp_poll_o1_vs_send, hk_c14s_mp_poll_o1_vs_send, MpF00, 2, 1, 1, 1, 1,
 park!(c14s_bc_droptx_o1_vs_poll, hk_c14s_bc_droptx_o1_vs_poll, BcF00, 4, 1, 2, 2, 1, PARK_SYNC_KINDS, 1);
 park!(c14s_mp_droprx_o1_vs_send, hk_c14s_mp_droprx_o1_vs_send, MpF00, 5, 1, 1, 1, 1, PARK_SYNC_KINDS, 1);
 crate::mq_harness!(c14_bc_two_sender_drops, hk_c14_bc_two_sender_drops, Runner<Park<BcF00, 10>, 0>, parked_two_sender_drops::<BcF00>(1, 1, 10));
+crate::mq_harness!(c14_bc_sender_drop_repoll, hk_c14_bc_sender_drop_repoll, Runner<Park<BcF00, 11>, 0>, parked_sender_drop_repoll::<BcF00>(1, 1, 10));
+crate::mq_harness!(c14_mp_sender_drop_repoll, hk_c14_mp_sender_drop_repoll, Runner<Park<MpF00, 11>, 0>, parked_sender_drop_repoll::<MpF00>(2, 2, 10));
 crate::mq_harness!(c14_mp_two_sender_drops, hk_c14_mp_two_sender_drops, Runner<Park<MpF00, 10>, 0>, parked_two_sender_drops::<MpF00>(2, 2, 10));
 park!(c14_bc10_poll_vs_send, hk_c14_bc10_poll_vs_send, BcF10, 1, 0, 2, 2, 1);
 park!(c14_mp11_send_vs_poll, hk_c14_mp11_send_vs_poll, MpF11, 2, 0, 1, 1, 1);
